@@ -355,6 +355,7 @@ def oracle_run_at(line, out):
             for m in re.finditer(r"t=(-?\d+)", o.split("|")[-1]):
                 if mono - int(m.group(1)) > max(ma, 0) + 7:
                     return (i, "cache entry older than max-age + cleanup period survives")
+        flag_bad = False
         if f[0] == "q":
             res = o.split("|")[0]
             path, target = unhx(f[3]), unhx(f[2])
@@ -378,9 +379,7 @@ def oracle_run_at(line, out):
             if mo.group(1).encode() != method:
                 return (i, "request method is not the :method the client sent")
             ext = method == b"CONNECT" and (b":protocol", b"websocket") in flds
-            if (mo.group(2) == "1") != ext:
-                return (i, "h2_connect_ext set on a request that is not an extended CONNECT "
-                           "(:protocol without :method CONNECT)")
+            flag_bad = (mo.group(2) == "1") != ext
             target, path = unhx(mo.group(3)), unhx(mo.group(4))
             paths = [v for k, v in flds if k == b":path"]
             if paths and target != paths[0]:
@@ -394,6 +393,9 @@ def oracle_run_at(line, out):
         if rule is None:
             if res != "pass":
                 return (i, "request outside every auth.require rule was not passed through")
+            if flag_bad:
+                return (i, "h2_connect_ext set on a request that is not an extended CONNECT "
+                           "(:protocol without :method CONNECT)")
             continue
         kind = res.split(":")[0]
         if kind == "pass":
@@ -419,6 +421,9 @@ def oracle_run_at(line, out):
             return (i, "refusal is neither 401 nor 400")
         elif kind == "500" and s.backend != "none" and not (s.backend == "htpasswd" and rule.scheme == "d"):
             return (i, "500 from a usable backend")
+        if flag_bad:
+            return (i, "h2_connect_ext set on a request that is not an extended CONNECT "
+                       "(:protocol without :method CONNECT)")
     return None
 
 
